@@ -130,3 +130,30 @@ PROPS["C19"] = {
          "thorough": {"shards": 4, "checks": 6000, "cap": 7200}},
     ],
 }
+
+PROPS["C16"] = {
+    "level": "exploration",
+    "rule": ("formats: an abstract package (1-4 targets with commands, label-form dependencies, glob inputs with excludes, typed outputs, bin_output, output checks, tags, fingerprint, env, platforms, timeout; aliases; default platforms; "
+             "strings drawn from plain and YAML/JSON/Starlark-hostile tokens) rendered to BUILD.json, BUILD.yaml, BUILD.star and - for packages restricted to annotation fields with `make goal` commands - Makefile annotations, each loaded "
+             "in its own workspace with identical source files through loading.LoadPackages; loaded targets/aliases must be pairwise identical. "
+             "determinism: 1-6 packages, each possibly split over several BUILD files of different formats (targets in one, aliases in another), loaded 12 times with shuffled file-creation orders and 1-16 workers; identical result and no declared node lost. "
+             "robust: 1-4 byte-level mutations (bit flip, truncation, deletion, line duplication, splice of hostile constants) of a rendering per loader incl. *.grog.sh; the loader must return a value or an error (no panic, fatal error or hang; each shard is a child process with a write-ahead case file). "
+             "Non-trivial = formats: accepted package with >=2 targets and an exclude glob, fingerprint, alias or Makefile rendering; determinism: a multi-file package among >=2 packages; robust: the mutated file is rejected with an error or loads to a non-empty package."),
+    "assumptions": [
+        "a YAML rendering is used only if yaml.v3 itself reads it back to the same abstract package",
+        "Starlark has no package-level default_platforms: the Starlark rendering spells the default out per target",
+        "a Starlark program that merely runs long (> 20 s) is discarded, not reported",
+    ],
+    "nt_floor": 0.2,
+    "parts": [
+        {"name": "formats", "pkg": "c16", "test": "TestFormats",
+         "quick": {"shards": 6, "checks": 1800, "cap": 900},
+         "thorough": {"shards": 16, "checks": 60000, "cap": 7200}},
+        {"name": "determinism", "pkg": "c16", "test": "TestDeterminism",
+         "quick": {"shards": 4, "checks": 300, "cap": 900},
+         "thorough": {"shards": 8, "checks": 8000, "cap": 7200}},
+        {"name": "robust", "pkg": "c16", "test": "TestRobust",
+         "quick": {"shards": 6, "checks": 18000, "cap": 900},
+         "thorough": {"shards": 16, "checks": 600000, "cap": 7200}},
+    ],
+}
